@@ -77,6 +77,9 @@ def check(ctx):
         carg = b.get(fs.p_cons)
         if "FEAS" in tags:
             ctx.ok(caller, call, f"filter called with the user's constraint ({canon(carg)})")
+        elif not R.logger_calls(caller):
+            # a strategy-internal filter only shapes the proposal; the evaluating step filters again (C18-R3 decides it)
+            ctx.note(f"{caller.short}: strategy-internal filter call without the user's constraint (does not reach the target directly)")
         else:
             ctx.fail(caller, call, f"the candidate filter is called with constraint argument {canon(carg) if carg is not None else '<missing>'}: candidates of this step are not checked against the user's constraint",
                      construct=f"filter constraint argument {canon(carg) if carg is not None else '<missing>'}")
